@@ -216,6 +216,12 @@ class BaseTemplate:
         for name, function in functions.items():
             setattr(self, "_" + name, function)
 
+        # Remove the render functions of an earlier version of the
+        # template (e.g. of a macro that has since been removed).
+        for name in list(self.__dict__):
+            if name.startswith('_render') and name[1:] not in functions:
+                del self.__dict__[name]
+
         self._cooked = True
 
         if self.keep_body:
